@@ -242,6 +242,7 @@ def check_property(prop, tier, jobs, use_cache=True):
     os.makedirs(EVID, exist_ok=True)
     json.dump(ev, open(os.path.join(EVID, prop + '.json'), 'w'), indent=1, default=str)
 
+    viol_lines = list(dict.fromkeys(viol_lines))
     for l in known_lines:
         print(l)
     print(f"property={prop} obligations={n_obl} discharged={n_ok} functions={len(classes)} "
